@@ -1,5 +1,6 @@
 /* Sink-thread unit (G-SNK): the REAL video_sink_thread (sink.c is #included) + vfslice.c +
- * throttler.c + real channel.c + HAL storage.c over the mock storage, against an environment
+ * throttler.c + HAL storage.c over the mock storage, on the CONTRACT MODEL of the channel
+ * (env/chan_contract.c: exactly the guarantees C01-C03 establish for the real channel.c), against an environment
  * writer that is any well-formed source: it commits N <= NMAX tagged frames through the real
  * channel_write_map/unmap at arbitrary boundaries and raises sink.is_stopping only after its last
  * commit; an optional monitor reader consumes partially.  Mechanism (B): env_step() is called
@@ -21,6 +22,7 @@
 #define NMAX 2
 #endif
 #define MOCK_MAX_FRAMES (NMAX + 2)
+#define MOCK_APPEND_LOG (NMAX + 2)
 #include "mock_devices.h"
 #include "sink.c"
 
@@ -40,6 +42,21 @@ static int N, written, writer_mapped, writer_done, stop_source_calls;
 static struct channel_reader mon;
 static int mon_on;
 
+/* the tape of the input channel is pre-filled with the N frames the (abstract) source will
+ * commit; committing frame i just advances the committed cursor (what channel_write_unmap does) */
+static void
+prefill(void)
+{
+    for (int i = 0; i < NMAX; ++i) {
+        struct VideoFrame* f = (struct VideoFrame*)(snk.in.data + (size_t)i * FRAME_BYTES); /* concrete offset: i is a loop constant */
+        memset(f, 0, sizeof *f);
+        f->bytes_of_frame = FRAME_BYTES;
+        f->shape = mock_shape();
+        f->frame_id = (uint64_t)i;
+        f->hardware_frame_id = (uint64_t)i;
+        for (int k = 0; k < PX; ++k) f->data[k] = TAG(0, 0, i);
+    }
+}
 static void
 writer_step(void)
 {
@@ -50,19 +67,15 @@ writer_step(void)
         writer_done = 1;
         return;
     }
-    struct VideoFrame* f = (struct VideoFrame*)channel_write_map(&snk.in, FRAME_BYTES);
 #if SCN == 2
-    if (!f) { writer_done = 1; snk.is_stopping = 1; return; } /* writes refused: source winds down */
-#else
-    VASSUME(f != 0);
+    if (!snk.in.is_accepting_writes) { writer_done = 1; snk.is_stopping = 1; return; } /* writes refused: source winds down */
 #endif
-    memset(f, 0, sizeof *f);
-    f->bytes_of_frame = FRAME_BYTES;
-    f->shape = mock_shape();
-    f->frame_id = (uint64_t)written;
-    f->hardware_frame_id = (uint64_t)written;
-    for (int i = 0; i < PX; ++i) f->data[i] = TAG(0, 0, written);
-    channel_write_unmap(&snk.in);
+    /* ring full? then the source would block: not now */
+    size_t mn = snk.in.head;
+    if (snk.reader.id && snk.in.holds.pos[snk.reader.id - 1] < mn) mn = snk.in.holds.pos[snk.reader.id - 1];
+    if (mon.id && snk.in.holds.pos[mon.id - 1] < mn) mn = snk.in.holds.pos[mon.id - 1];
+    if ((snk.in.head - mn) + FRAME_BYTES > snk.in.capacity) return;
+    snk.in.head += FRAME_BYTES;
     ++written;
 }
 
@@ -71,31 +84,27 @@ env_step(void)
 {
     if (in_env || main_done || env_steps >= ENV_MAX) return;
     if (verif_lock_is_held(&snk.in.lock)) return;
-    if (!ND(bool_t)) return;
+    uint8_t c = ND(uint8_t);
+    if (c == 0) return;
     in_env = 1;
     ++env_steps;
-    uint8_t c = ND(uint8_t);
-    VASSUME(c < 3);
-    if (c == 0) writer_step();
-    else if (c == 1 && mon_on) {
-        if (mon.state == ChannelState_Mapped) {
-            size_t k = ND(uint8_t);
-            VASSUME(k <= NMAX);
-            channel_read_unmap(&snk.in, &mon, k * FRAME_BYTES);
-        } else {
-            struct slice s = channel_read_map(&snk.in, &mon);
-            (void)s;
-        }
+    if (c == 1) writer_step();
+    else if (c == 2 && mon_on) {
+        /* monitoring client: registers, then consumes any number of whole frames */
+        if (!mon.id) { mon.id = ++snk.in.holds.n; snk.in.holds.pos[mon.id - 1] = 0; }
+        size_t k = ND(uint8_t);
+        VASSUME(k <= NMAX && snk.in.holds.pos[mon.id - 1] + k * FRAME_BYTES <= snk.in.head);
+        snk.in.holds.pos[mon.id - 1] += k * FRAME_BYTES;
     }
 #if SCN == 2
-    else if (c == 2 && snk.in.is_accepting_writes) channel_accept_writes(&snk.in, 0);
+    else if (c == 3) snk.in.is_accepting_writes = 0;
 #endif
     else --env_steps;
     in_env = 0;
 }
 
-void verif_on_lock_acquire(struct lock* l) { if (!in_env) env_step(); }
-void verif_on_lock_release(struct lock* l) { if (!in_env) env_step(); }
+void verif_on_lock_acquire(struct lock* l) { if (!in_env) env_step(); } /* before every atomic channel operation */
+void verif_on_lock_release(struct lock* l) {}
 void verif_on_notify(struct condition_variable* cv) {}
 void
 verif_on_wait(struct condition_variable* cv, struct lock* l)
@@ -121,6 +130,7 @@ clock_sleep_ms(struct clock* c, float ms)
     VASSUME(polls <= POLL_MAX); /* environment completes within POLL_MAX polls */
     env_step();
     env_step();
+    env_step();
 }
 void thread_init(struct thread* t) { t->is_live_ = 0; }
 uint8_t thread_create(struct thread* t, void (*p)(void*), void* a) { return 1; }
@@ -139,7 +149,11 @@ main(void)
     id.device_id = NCAM;
     video_sink_init(&snk, 0, RING_FRAMES * FRAME_BYTES + 8, sig_stop_source);
     static struct StorageProperties sp;
+#ifdef FIX_DELAY0
+    float delay = 0.0f;
+#else
     float delay = ND(bool_t) ? 0.0f : 5.0f;
+#endif
     VASSERT(video_sink_configure(&snk, &dm, &id, &sp, delay) == Device_Ok, "sink configure");
     N = ND(uint8_t);
     VASSUME(N >= 1 && N <= NMAX);
@@ -149,6 +163,7 @@ main(void)
     VASSUME(STO[0].fail_append_at <= NMAX);
 #endif
     mon_on = ND(bool_t);
+    prefill();
     VASSERT(storage_start(snk.storage) == Device_Ok, "storage_start");
     channel_accept_writes(&snk.in, 1);
     snk.is_stopping = 0;
@@ -157,9 +172,18 @@ main(void)
     int rc = video_sink_thread(&snk);
     main_done = 1;
     VASSERT(writer_done, "harness: environment writer did not finish (cut by the poll bound)");
-    VASSERT(STO[0].bad_packet == 0, "C05: storage received a packet that is not a chain of whole 8-aligned frames");
-    VASSERT(STO[0].order_errors == 0, "C04: storage received frames out of order, with a gap or twice");
-    VASSERT(STO[0].tag_errors == 0, "C04: pixel bytes changed on the way to storage");
+    /* The input tape is linear and never rewritten, so "every committed frame reaches storage exactly
+     * once, in order, bit-exact, in packets of whole frames" <=> the appended packets tile the tape
+     * [0, total) consecutively and each is a whole number of frames. */
+    size_t total = 0;
+    VASSERT(mock_napp <= MOCK_APPEND_LOG, "more appends than frames + 2");
+    for (int i = 0; i < MOCK_APPEND_LOG; ++i)
+        if (i < mock_napp) {
+            VASSERT(mock_app_beg[i] == snk.in.data + total, "C04: storage received frames out of order, with a gap or twice (packet does not start where the previous one ended)");
+            VASSERT(mock_app_len[i] % FRAME_BYTES == 0 && mock_app_len[i] > 0, "C05: packet is not a whole number of frames");
+            total += mock_app_len[i];
+        }
+    STO[0].frames_this_run = (int)(total / FRAME_BYTES);
     VASSERT(STO[0].appended_after_fail == 0, "C09: append after a failed append");
     VASSERT(STO[0].stops == 1 && STO[0].started == 0, "C04/C09: storage not stopped exactly once when the sink thread exits");
     VASSERT(STO[0].viol == 0, "C08: storage protocol violated (append outside start..stop / stop without start)");
@@ -177,7 +201,7 @@ main(void)
 #elif SCN == 2
     VASSERT(STO[0].frames_this_run == written, "C07: storage did not receive exactly the committed prefix");
 #endif
-    COVER(snk.in.cycle >= 1);
+    COVER(STO[0].appends >= 2);
     COVER(polls >= 2);
     COVER(delay > 0 && STO[0].frames_this_run == NMAX);
     COVER(mon_on && STO[0].frames_this_run == NMAX);
